@@ -80,9 +80,10 @@ def seq_run(profile, footprint, n_quick, n_thorough, ops_quick=22, ops_thorough=
             scripts.append(lines)
             names.append("corpus:" + name)
         for i in range(n):
-            g = S.Gen(random.Random(ctx.rnd.getrandbits(64)), profile)
+            wild = (i % 8 == 7)     # 1 in 8 histories deliberately leaves the hypotheses
+            g = S.Gen(random.Random(ctx.rnd.getrandbits(64)), dict(profile, wild=wild))
             scripts.append(g.history(ctx.rnd.randrange(max(3, n_ops // 3), n_ops + 1)))
-            names.append(f"gen:{i}")
+            names.append(f"gen:{i}" + (":wild" if wild else ""))
             for k, v in g.stats.items():
                 stats[k] = stats.get(k, 0) + v
         run_known_probes(ctx, footprint)
@@ -187,25 +188,154 @@ def seq_replay(footprint):
 
 
 ALL_OPS = {"append", "import", "remove", "setnow", "gcstep", "drain", "reopen", "readsync", "read", "get", "head"}
+READS = {"readsync", "read", "get", "head"}
 
 P_CTX = dict(op_w={"register": 5, "append": 8, "import": 5, "remove": 5, "tick": 0.5, "gc": 1, "reopen": 3, "badctx": 1},
              p_import_reg=0.5, p_import_collide=0.05, n_topics=3,
              ttl_w={"-": 3, "forever": 2, "ephemeral": 2, "time": 1, "head": 1})
+P_GENERAL = dict()
+P_TOPICS = dict(op_w={"register": 2, "append": 12, "import": 4, "remove": 4, "tick": 1, "gc": 3, "reopen": 1, "badctx": 0.2},
+                n_topics=9, p_nul=0.08, p_nul_head=0.3, p_import_collide=0.15)
+P_TTL = dict(op_w={"register": 1.5, "append": 12, "import": 2, "remove": 2, "tick": 5, "gc": 6, "reopen": 1, "badctx": 0.1},
+             n_topics=4, ttl_w={"-": 1, "forever": 1, "ephemeral": 2, "time": 5, "head": 5}, p_probe=0.5)
+P_EXPORT = dict(op_w={"register": 3, "append": 12, "import": 2, "remove": 3, "tick": 0.5, "gc": 2, "reopen": 0.5, "badctx": 0},
+                n_topics=5, p_nul=0.0, p_import_collide=0.0, p_import_reg=0.3,
+                ttl_w={"-": 3, "forever": 2, "ephemeral": 1, "head": 3})
+
+TRUSTED = ("Trusted: Coq kernel; extraction (ExtrOcamlBasic) + OCaml driver; Rust harness + hooks (clock override, GC "
+           "stepping); fjall (ordered KV, atomic batch), scru128 (fresh increasing ids), serde_json modelled as oracles. ")
+HYPS = ["id oracle (scru128) hands out fresh ids < 2^128 (checked on every run: ids the implementation returned are fed to the model)",
+        "refinement hypotheses hyp_all (Model/Spec.v), each a known-finding class or an input the API cannot produce: "
+        "no import re-using an id under another topic/context (F7), no context 2^128-1 (F8), no NUL in a queried head "
+        "topic (F9), imported registration frames carry a persistent TTL, id 0 is not an xs.context frame"]
+
+
+def c20_run(ctx):
+    """export -> import in any order with duplications into an empty store: the two real stores must
+    be observably equal (impl vs impl), and each must agree with model and spec."""
+    n = 25 if ctx.tier == "quick" else 400
+    rnd = ctx.rnd
+    srcs = []
+    for i in range(n):
+        g = S.Gen(random.Random(rnd.getrandbits(64)), dict(P_EXPORT, final_drain=True))
+        srcs.append(g.history(rnd.randrange(6, 22 if ctx.tier == "quick" else 40)))
+    res_a = S.run_many(srcs)
+    imports, metas = [], []
+    for lines, res in zip(srcs, res_a):
+        impl = S.parse_trace(res["trace"])
+        # the last all-contexts read is the export; the final probe block is everything after the last drain
+        last_drain = max(i for i, (op, _) in enumerate(impl) if op[0] == "drain")
+        probes = impl[last_drain + 1:]
+        export = None
+        for op, obs in probes:
+            if op[0] == "readsync" and op[1:] == ["-", "-", "-"]:
+                export = obs.split(" ")[3:]
+                break
+        frames = [f.split(",") for f in (export or [])]
+        order = list(frames)
+        rnd.shuffle(order)
+        order += [rnd.choice(frames) for _ in range(rnd.randrange(0, 3))] if frames else []
+        # registration frames after the frames that use them: put xs.context frames last half of the time
+        if rnd.random() < 0.5:
+            order.sort(key=lambda f: f[2] == S.xh(S.XS_CONTEXT))
+        b = [f"import #{f[0]} #{f[1]} {f[2]} {f[3]} {f[4]} {f[5]}" for f in order]
+        b.append("drain")
+        for op, obs in probes:
+            if op[0] in ("readsync", "read"):
+                b.append(f"{op[0]} {'#' + op[1] if op[1] != '-' else '-'} {int(op[2], 16) if op[2] != '-' else '-'} "
+                         f"{'#' + op[3] if op[3] != '-' else '-'}")
+            elif op[0] == "get":
+                b.append(f"get #{op[1]}")
+            elif op[0] == "head":
+                b.append(f"head {op[1]} #{op[2]}")
+            elif op[0] == "append":   # context probe (ephemeral)
+                b.append(f"append #{op[2]} {op[3]} - - ephemeral")
+        imports.append(b)
+        metas.append(probes)
+    res_b = S.run_many(imports)
+    n_cmp, worst = 0, None
+    distinct = set()
+    for i, (a_lines, b_lines, ra, rb, probes) in enumerate(zip(srcs, imports, res_a, res_b, metas)):
+        ca, cb = S.compare(ra, ALL_OPS), S.compare(rb, ALL_OPS)
+        for which, c, lines in (("source", ca, a_lines), ("imported", cb, b_lines)):
+            if (c["corr"] or c["incomplete"]) and worst is None:
+                worst = ("corr", f"{which} store of case {i}", lines, (c["corr"] or [c["incomplete"]])[0])
+            if c["spec"] and (worst is None or worst[0] == "corr"):
+                worst = ("spec", f"{which} store of case {i}", lines, c["spec"][0])
+        implb = S.parse_trace(rb["trace"])
+        pb = [x for x in implb if x[0][0] in ("readsync", "read", "get", "head", "append")]
+        pa = [x for x in probes if x[0][0] in ("readsync", "read", "get", "head", "append")]
+        if len(pa) == len(pb) and len(pa) > 0:
+            distinct.add(hashlib.sha256("\n".join(b_lines).encode()).hexdigest())
+        for (opa, obsa), (opb, obsb) in zip(pa, pb):
+            n_cmp += 1
+            if opa[0] == "append":
+                obsa, obsb = obsa.split(" ")[1], obsb.split(" ")[1]   # accepted / rejected only (ids differ)
+            if obsa != obsb and (worst is None or worst[0] == "corr"):
+                worst = ("roundtrip", f"case {i}", a_lines + ["// ---- imported as:"] + b_lines,
+                         dict(op=" ".join(opb), impl=obsb, spec=obsa))
+    ctx.coverage.update(dict(
+        evaluations=2 * n, distinct_nontrivial=len(distinct),
+        rule="one evaluation = one real store: n source stores built by generated histories, n stores built by importing "
+             "the source's export in a random permutation with duplications (registrations sometimes last); every probe "
+             "(reads, gets, heads, context usability) is compared between the two real stores and against model and spec; "
+             "non-trivial = the imported store answered every probe of the source",
+        traces_validated_against_impl=2 * n, probe_observations_compared=n_cmp,
+        samples=[dict(source=srcs[0][:8], imported=imports[0][:8])]))
+    if worst:
+        kind, name, lines, d = worst
+        if kind == "corr":
+            ctx.violation(f"correspondence broken ({name}): op `{d.get('op', '')[:200]}` impl `{str(d.get('impl'))[:300]}` model "
+                          f"`{str(d.get('model'))[:300]}`; no input violating the property was found",
+                          dict(engine="S", theorem_or_correspondence="engine S: xsv seq vs extracted Model/Store.v",
+                               script=lines, first_disagreement=d), no_input=True)
+        else:
+            ctx.violation(f"export/import is not faithful ({name}): probe `{d['op'][:200]}` on the imported store returned "
+                          f"`{d['impl'][:300]}`, expected `{d['spec'][:300]}`",
+                          dict(engine="S", script=lines, first_disagreement=d))
+
+
+def seq_entry(prop_file, profile, footprint, nq, nt, level_text, extra_assumptions=(), run=None, **kw):
+    return dict(prop_file=prop_file, run=run or seq_run(profile, footprint, nq, nt, **kw), replay=seq_replay(ALL_OPS),
+                level_text=level_text, level_note=TRUSTED + "Hypotheses of the theorems: see evidence.assumptions.",
+                assumptions=HYPS + list(extra_assumptions), engine="S")
+
 
 REGISTRY = {
-    "C07": dict(
-        prop_file="Props/C07.v",
-        run=seq_run(P_CTX, {"append", "import", "remove", "reopen", "get", "head", "readsync", "read"}, 120, 2000),
-        replay=seq_replay(ALL_OPS),
-        level_text="Coq theorems over the executable store model (Props/C07.v): a rejected append leaves the state "
-                   "unchanged; acceptance of an ordinary append is exactly registry membership; xs.context frames are "
-                   "accepted iff in the zero context, stored Forever and registered. The model is tied to /repo by running "
-                   "generated registration/removal/import/reopen histories on the real Store (process restarts are real) and "
-                   "on the extracted model and spec, comparing every observation.",
-        level_note="Trusted: Coq kernel; extraction (ExtrOcamlBasic) + OCaml driver; Rust harness + hooks (clock, GC "
-                   "stepping); fjall/scru128 modelled as oracles. Crash-reopen (kill at arbitrary syscall) is C04's engine.",
-        assumptions=["id oracle (scru128) hands out fresh ids < 2^128",
-                     "refinement hypotheses hyp_ok (Model/Spec.v): no import re-using an id with another "
-                     "topic/context, no context 2^128-1, imported registration frames carry a persistent TTL"],
-    ),
+    "C01": seq_entry("Props/C01.v", P_GENERAL, ALL_OPS, 250, 5000,
+        "Coq: refinement theorem (every observation of every operation of the byte-level store model equals the abstract "
+        "spec's, for every admissible history, Proofs/Refine.v) + closed form of both read programs (spec_read: filter "
+        "scope/after/unexpired, firstn limit), sortedness, NoDup, get = find. Tie to /repo: generated histories "
+        "(append/import/remove/clock/GC steps/reopen, adversarial topics, adjacent contexts, all TTL kinds) run on the real "
+        "Store and on the extracted model and spec; every observation compared."),
+    "C05": seq_entry("Props/C05.v", P_TOPICS, {"get", "head", "readsync", "read", "append", "import"}, 250, 5000,
+        "Coq: lookups_agree (get <-> all-contexts read <-> own-context read) and head = newest frame of exactly (context, "
+        "topic) for every admissible history and arbitrary byte strings (prefix exactness of ctx||topic||0 proved for all "
+        "topics); NUL topics rejected without trace. Tie: engine S with prefix-related/delimiter-adjacent topic pool."),
+    "C06": seq_entry("Props/C06.v", P_CTX, {"readsync", "read", "head", "get"}, 200, 3000,
+        "Coq (store-level paths): every frame returned by read_sync / streaming read / head scoped to context b has "
+        "context b, for every admissible history; range exactness [ctx, ctx+1) incl. adjacent ids. HTTP routes, nu "
+        "commands and handler dispatch are covered by engines H/V where built; this check claims the Store API paths.",
+        ["partial: HTTP/handler/nu access paths are outside this check's model (see DESIGN §9)"]),
+    "C07": seq_entry("Props/C07.v", P_CTX, {"append", "import", "remove", "reopen", "get", "head", "readsync", "read"}, 200, 3000,
+        "Coq: a rejected append leaves the state unchanged; acceptance is exactly registry membership; xs.context frames "
+        "accepted iff zero context, stored Forever, registered; the registry is a function of the live frames at every "
+        "reachable state (imports included) and is unchanged by reopen. Tie: registration/removal/import/reopen histories "
+        "on the real Store with real process restarts."),
+    "C08": seq_entry("Props/C08.v", P_TTL, {"get", "readsync", "read", "head"}, 250, 5000,
+        "Coq: every way a frame can leave the live list in one step (explicit remove, overwrite by import, GC Remove "
+        "task, GC CheckHead task of exactly its (context, topic)); CheckHead evicts only frames outside the K newest of "
+        "exactly (c,t) and never touches other topics/contexts; reads never remove; Remove tasks are queued only for "
+        "expired frames. Tie: TTL-heavy histories with clock stepping to expiry-1/expiry/expiry+1 and single GC steps."),
+    "C09": seq_entry("Props/C09.v", P_TTL, {"append", "get", "readsync", "read", "head", "reopen"}, 250, 5000,
+        "Coq: ephemeral appends change no partition/registry/queue; expired time:N frames are returned by neither read "
+        "path at any point of any admissible history and are queued for removal by an unlimited read; a head:N "
+        "collection leaves <= N frames of (c,t), the newest ones. Tie: as C08 plus both read paths."),
+    "C20": seq_entry("Props/C20.v", P_EXPORT, ALL_OPS, 0, 0,
+        "Coq: import in any order/with duplicates yields the same live list, equal to the source (ids, order, fields); "
+        "position kept; idempotent; NUL rejected whole; registry is a function of the live list; the concrete store "
+        "refines the abstract one. Tie: real source stores exported and imported (permuted, duplicated, registrations "
+        "last) into fresh real stores; every probe compared between the two real stores and with model+spec.",
+        ["xs.nu's .export/.import cannot run here (no nu binary); the HTTP import route is exercised by engine H"],
+        run=c20_run),
 }
